@@ -17,7 +17,11 @@ def run(pid):
     rc1 = eng_orch.run(pid)
     with open(ev_path) as f:
         e1 = json.load(f)
-    rc2 = eng_stack.run(pid)
+    os.environ["VERIF_REPLAY_MODE"] = "1"      # the second part must not delete the replays the first part has just written
+    try:
+        rc2 = eng_stack.run(pid)
+    finally:
+        del os.environ["VERIF_REPLAY_MODE"]
     with open(ev_path) as f:
         e2 = json.load(f)
     cov = e2["coverage"]
